@@ -28,6 +28,7 @@ def run(ctx):
     ctx.rule('C08.SIGN', lambda: rule_sign(ctx), 2)
     ctx.rule('C08.LIVEFLAG', lambda: rule_liveflag(ctx), 2)
     ctx.rule('C08.FEE', lambda: rule_fee(ctx), 2)
+    ctx.rule('C08.POSITIONAL', lambda: rule_positional(ctx), 2)
     sch = ctx.rule('C08.SCHEMAS', lambda: c01.Schemas(ctx))
     if sch is not None:
         ctx.rule('C08.LOOKUP', lambda: c01.rule_layout_lookup(ctx, sch, 'C08.LOOKUP'), 8)
@@ -143,6 +144,27 @@ def rule_remove(ctx):
               'a removed transaction is taken out of the index of each of its hashXs; emptied entries are deleted',
               'a removed transaction is not taken out of the index of every hashX (and emptied entries deleted) on every path', loc=ctx.loc(f, outer))
     n += 1
+    # no other statement anywhere in the class shrinks or rebinds txs / hashXs behind the back of `touched`
+    from . import c09
+    rel = ctx.repo.path('mp')
+    for g in ctx.repo.funcs.values():
+        if g.unit.relpath != rel or g.cls != 'MemPool' or g.name == '__init__':
+            continue
+        for st in c09.mutates_shared(ctx, g):
+            if g is f and (st is ps or q.in_body(st, outer.body)):
+                continue
+            shr = [c for c in ast.walk(st) if isinstance(c, ast.Call) and isinstance(c.func, ast.Attribute)
+                   and c.func.attr in ('clear', 'pop', 'popitem') and ctx.res.canon(c.func.value, g) in c09.SHARED]
+            if isinstance(st, ast.Delete) and any(isinstance(t, ast.Subscript) and ctx.res.canon(t.value, g) in c09.SHARED for t in st.targets):
+                shr.append(st)
+            if shr:
+                ctx.bad('C08.TOUCHPAIR', ctx.key(g, st), f'`{norm(st)[:60]}` removes transactions outside the removal loop: their script hashes '
+                        'are not added to touched, so subscribers are never told the transactions are gone', loc=ctx.loc(g, st))
+        for st in g.own_nodes():
+            if isinstance(st, ast.Assign) and g.name != '__init__' and any(
+                    isinstance(t, ast.Attribute) and ctx.res.canon(t, g) in c09.SHARED for t in st.targets):
+                ctx.bad('C08.TOUCHPAIR', ctx.key(g, st), f'`{norm(st)[:60]}` replaces the container wholesale: nothing is reported as touched',
+                        loc=ctx.loc(g, st))
     tu = [c for c in walk_own(outer) if isinstance(c, ast.Call) and norm(c.func) == f'{f.params[2]}.update' and setv and norm(c.args[0]) == setv]
     ok = len(tu) == 1
     if ok:
@@ -151,6 +173,49 @@ def rule_remove(ctx):
               'the hashXs of every removed transaction are added to touched', 'the hashXs of a removed transaction are not all added to touched',
               loc=ctx.loc(f, outer))
     return n + 1
+
+
+def rule_positional(ctx):
+    '''out_pairs is indexed by output position (a child's prevout index selects the parent's pair; unconfirmed UTXOs
+    report the position as tx_pos), so it must hold one pair per output of the transaction, in order.'''
+    from .c03 import expand_locals
+    rel = ctx.repo.path('mp')
+    n = 0
+    # consumers that index by position (floor: the property relies on them)
+    users = []
+    for f in ctx.repo.funcs.values():
+        if f.unit.relpath != rel:
+            continue
+        for x in f.own_nodes():
+            if isinstance(x, ast.Subscript) and isinstance(x.value, ast.Attribute) and x.value.attr == 'out_pairs':
+                users.append((f, x))
+            if isinstance(x, ast.Call) and norm(x.func) == 'enumerate' and x.args and isinstance(x.args[0], ast.Attribute) \
+                    and x.args[0].attr == 'out_pairs':
+                users.append((f, x))
+    if not users:
+        return 0    # nothing relies on positions any more
+    for f in ctx.repo.funcs.values():
+        if f.unit.relpath != rel:
+            continue
+        for c in f.own_nodes():
+            if not (isinstance(c, ast.Call) and norm(c.func) == 'MemPoolTx'):
+                continue
+            arg = c.args[2] if len(c.args) >= 3 else next((k.value for k in c.keywords if k.arg == 'out_pairs'), None)
+            if arg is None:
+                continue
+            n += 1
+            e = expand_locals(f, arg)
+            comp = e
+            if isinstance(comp, ast.Call) and norm(comp.func) in ('tuple', 'list') and len(comp.args) == 1:
+                comp = comp.args[0]
+            ok = isinstance(comp, (ast.GeneratorExp, ast.ListComp)) and len(comp.generators) == 1 and not comp.generators[0].ifs \
+                and isinstance(comp.generators[0].iter, ast.Attribute) and comp.generators[0].iter.attr == 'outputs'
+            ctx.check(ok, 'C08.POSITIONAL', ctx.key(f, q.stmt(c), 'one pair per output'),
+                      'out_pairs holds one pair per transaction output, in output order',
+                      f'out_pairs is built as `{norm(e)[:100]}`: pairs are looked up by output index ({len(users)} positional uses), so a '
+                      'filtered or re-ordered list resolves a child\'s input to the wrong output and reports wrong tx_pos',
+                      loc=ctx.loc(f, c))
+    return n + len(users)
 
 
 def rule_merge(ctx):
